@@ -10,10 +10,10 @@ extern "C" {
 #include "a/utf.h"
 }
 
-enum { L_REALLOC, L_FMT_EXACT_FIT, L_FMT_GROW, L_TRIM_EMPTIES, L_EXIT_FULL, L_EXIT, L_NUL_BYTE, L_HIGH_BYTE, L_UTF, L_SETN_GROW, L_SWAP, L_CMP, L_LEN_EQ_MEM, L_FAULT_HIT, L_FAULT_LATE, L_CAT_OTHER, L_GETN, L_LEN64 };
+enum { L_REALLOC, L_FMT_EXACT_FIT, L_FMT_GROW, L_TRIM_EMPTIES, L_EXIT_FULL, L_EXIT, L_NUL_BYTE, L_HIGH_BYTE, L_UTF, L_SETN_GROW, L_SWAP, L_CMP, L_LEN_EQ_MEM, L_FAULT_HIT, L_FAULT_LATE, L_CAT_OTHER, L_GETN, L_LEN64, L_BIG_RESERVE };
 static char const *const labels[] = {"reallocation", "catf_exactly_fills_spare_capacity", "catf_reallocates", "trim_empties_string", "exit_with_len_eq_mem", "exit",
                                      "nul_byte_in_content", "byte_ge_0x80", "utf_catc", "setn_grows_length", "swap", "compare", "len_eq_mem_state",
-                                     "fault_hit_library_request", "fault_not_in_first_op", "cat_other_string", "getn", "len_ge_64", nullptr};
+                                     "fault_hit_library_request", "fault_not_in_first_op", "cat_other_string", "getn", "len_ge_64", "reserve_ge_200_up_to_64KiB", nullptr};
 static char const *const metrics[] = {"max_len", "faulty_executions", nullptr};
 static uint8_t const dict[] = {0x20, 0x09, 0x0A, 0x25, 0x73, 0xC3, 0xE2, 0xF0};
 #ifdef VP_FAULT
@@ -520,6 +520,12 @@ static void run_history(Tape &t, Ctx &cx, uint64_t fail_at, int mode, uint64_t *
             break; }
         case 11: {
             size_t want = t.u8() % 97;
+            {
+                // occasionally a large reserve (page-sized and beyond): capacity far above the content
+                uint8_t big = t.u8();
+                static size_t const res[] = {200, 1000, 4095, 4096, 4097, 4104, 5000, 8192, 12288, 65536};
+                if (big % 8 == 0) { want = res[(big >> 3) % 10] + (big >> 7); cx.label(L_BIG_RESERVE); }
+            }
             for (int attempt = 0; attempt < 2; ++attempt)
             {
                 uint64_t fb = g_shim.faults;
